@@ -13,6 +13,7 @@ CONSTANTS
   WithErrors = FALSE
   WithIdle = FALSE
   WithSleep = FALSE
+  WithStop = FALSE
   TimeoutTypes = {}
   KeepLog = TRUE
 INVARIANT TypeOK
